@@ -41,6 +41,10 @@ def export(module, cfg):
         shutil.rmtree(d, ignore_errors=True)
 
 
+# "any header size": the size the header declares, whether or not it is a multiple of the customary 1024
+HEADER_SIZES = (1024, 2048, 1025, 1100, 1536, 2500)
+
+
 def data_bytes(n, frame=0):
     """Data byte k is a function of k.  With `frame`, the four bytes b'ajkg' (the marker by which the reader
     recognises embedded shorten data at the START of the data section) are planted at every later read boundary:
@@ -87,7 +91,7 @@ def run(tier, seed):
             raw = data_bytes(avail, F if k % 2 else 0)
             if F % 2 == 0 and k % 3 != 2:
                 nchan, coding, bf = F // 2, "pcm", ("01", "10")[k % 2]
-                hdr = sph_util.header(nchan, promised, 2, bf, "pcm", (1024, 2048)[(k // 2) % 2])
+                hdr = sph_util.header(nchan, promised, 2, bf, "pcm", HEADER_SIZES[(k // 2) % len(HEADER_SIZES)])
                 used = raw[: frames * F].tobytes()
                 want = np.frombuffer(used, dtype="<i2" if bf == "01" else ">i2").astype(np.int16)
                 dtype_arg = None
@@ -96,10 +100,13 @@ def run(tier, seed):
                     want = want.astype(dtype_arg)
             else:
                 nchan, coding = F, ("ulaw", "alaw")[k % 2]
-                hdr = sph_util.header(nchan, promised, 1, "1", coding, (1024, 2048)[(k // 2) % 2])
+                hdr = sph_util.header(nchan, promised, 1, "1", coding, HEADER_SIZES[(k // 2) % len(HEADER_SIZES)])
                 codes = raw[: frames * F]
                 dtype_arg = (np.uint8, np.int8)[(k // 5) % 2] if k % 5 == 0 else None  # a 1-byte dtype: the raw codes
                 want = codes.astype(dtype_arg) if dtype_arg is not None else (ulaw if coding == "ulaw" else alaw)[codes]
+                if k % 5 == 1:  # any wider dtype: the expanded samples, cast
+                    dtype_arg = (np.float32, np.int32, np.int64, np.float64, np.int16)[(k // 5) % 5]
+                    want = want.astype(dtype_arg)
             want = want.reshape((frames,) if nchan == 1 else (frames, nchan))
             if k % 7 == 3:
                 # a well-formed header whose field text (and end_head) runs past byte 1024
@@ -129,7 +136,7 @@ def run(tier, seed):
             warned = any("samples expected" in str(x.message) for x in w)
             if got.shape != want.shape or got.dtype != want.dtype or got.tobytes() != want.tobytes():
                 first = None
-                if got.shape == want.shape and got.size:
+                if got.shape == want.shape and got.size and np.any(got != want):
                     first = int(np.argwhere(got.reshape(-1) != want.reshape(-1))[0][0])
                 run.violation({"kind": "sphere_samples_differ_from_stored", "case": q, "coding": coding, "channels": nchan,
                                "got_shape": list(got.shape), "definition_shape": list(want.shape), "got_dtype": str(got.dtype),
